@@ -14,7 +14,7 @@ VARIABLE i
 Init == i = 1
 Next == i <= Len(TLog) /\ i' = i + 1
 
-Initial(k) == IF k = "new" THEN "absent" ELSE "prev"
+Initial(k) == IF k = "edit" THEN "prev" ELSE "absent"
 NonTmp(s) == SelectSeq(s, LAMBDA x : x \notin {"tmp", "arcread"})
 Expected == IF AtomicClose THEN <<"sideopen", "replace">> ELSE <<"unlink", "taropen">>
 (* the repaired close may remove the sibling file in a finally clause *)
@@ -32,6 +32,8 @@ Verdict(r) ==
   THEN IF r.raised = "" /\ r.arc # "new" THEN "C38:fault-swallowed-archive-" \o r.arc
        ELSE IF r.raised # "" /\ r.arc \notin {Initial(r.kind), "new"}
             THEN "C38:archive-" \o r.arc \o "-after-failure"
+       ELSE IF r.cls = "pair" /\ r.arc2nd \notin {Initial(r.kind), "new"} THEN "C38:archive-" \o r.arc2nd \o "-after-second-failure"
+       ELSE IF ~r.origIntact THEN "C38:source-archive-of-the-copy-damaged"
        ELSE IF ~r.retry THEN "C38:retry-failed"
        ELSE "ok"
   ELSE IF r.ev = "coverage"
